@@ -174,3 +174,100 @@ impl Group for Serve {
         format!("rules={}", l.split(' ').nth(1).unwrap_or("").trim_matches('-').len())
     }
 }
+
+/// A vary miss whose handler is still running while the page is cleared and cached again: the variant computed meanwhile is
+/// added to the entry as it is *then*.
+pub struct Overlap;
+static OVERLAP_GATE: std::sync::atomic::AtomicBool = std::sync::atomic::AtomicBool::new(false);
+impl Group for Overlap {
+    fn name(&self) -> &'static str {
+        "c05.overlap"
+    }
+    fn rule(&self) -> &'static str {
+        "one page with a vary rule on x-lang; k variants are cached, then a request for a new variant is started whose handler waits; meanwhile the page is cleared and requested again by j other variants (a new, shorter or longer entry); the handler is released; oracle: the waiting request is answered with its own variant (no panic in its task), and every variant requested afterwards gets its own body; non-trivial = always"
+    }
+    fn parallel(&self) -> bool {
+        false
+    }
+    fn generate(&self, _ctx: &Ctx, _rng: &mut Rng) -> Vec<String> {
+        let mut v = Vec::new();
+        for k in 0..4 {
+            for j in 0..3 {
+                for clear in [0, 1] {
+                    v.push(format!("c05.overlap {k} {j} {clear}"));
+                }
+            }
+        }
+        v
+    }
+    fn compare_with_model(&self, _line: &str) -> bool {
+        false
+    }
+    fn run_impl(&self, _ctx: &Ctx, line: &str) -> String {
+        let p: Vec<&str> = line.split(' ').collect();
+        let (k, j, clear): (usize, usize, bool) = (p[1].parse().unwrap(), p[2].parse().unwrap(), p[3] == "1");
+        let mut ext = Extensions::empty();
+        ext.add_prepare_single("/v", prepare!(req, _h, _p, _a, {
+            let lang = req.headers().get("x-lang").and_then(|v| v.to_str().ok()).unwrap_or("aa").chars().take(2).collect::<String>();
+            if lang == "zz" {
+                while !OVERLAP_GATE.load(Ordering::SeqCst) {
+                    tokio::time::sleep(std::time::Duration::from_millis(2)).await;
+                }
+            }
+            let mut body = format!("variant {lang};").into_bytes();
+            body.resize(64, b'.');
+            FatResponse::cache(Response::new(Bytes::from(body)))
+        }));
+        let mut host = Host::unsecure("localhost", "/nonexistent", ext, host::Options::default());
+        host.limiter.disable();
+        host.vary.add_mut("/v", vary::Settings::empty().add_rule("x-lang", |v| Cow::Owned(v.chars().take(2).collect()), "aa"));
+        let coll = HostCollection::builder().insert(host).build();
+        let rt = tokio::runtime::Builder::new_multi_thread().worker_threads(2).enable_all().build().unwrap();
+        let addr: SocketAddr = "10.0.0.2:4000".parse().unwrap();
+        OVERLAP_GATE.store(false, Ordering::SeqCst);
+        let get = |coll: Arc<HostCollection>, lang: &'static str| async move {
+            let host = coll.get_host("localhost").unwrap();
+            let mut req = Request::builder().uri("/v").header("x-lang", lang).body(kvarn::application::Body::Bytes(Bytes::new().into())).unwrap();
+            let r = kvarn::handle_cache(&mut req, addr, host).await;
+            String::from_utf8_lossy(&r.identity_body[..r.identity_body.len().min(10)]).into_owned()
+        };
+        let langs = ["aa", "bb", "cc", "dd"];
+        let mut problems = Vec::new();
+        for l in &langs[..k] {
+            let o = rt.block_on(get(coll.clone(), l));
+            if o != format!("variant {l}") { problems.push(format!("{l} got `{o}`")); }
+        }
+        // the slow one
+        let slow = rt.spawn(get(coll.clone(), "zz"));
+        std::thread::sleep(std::time::Duration::from_millis(30));
+        if clear {
+            coll.clear_page("localhost", &"/v".parse().unwrap());
+        }
+        for l in &["mm", "nn"][..j] {
+            let o = rt.block_on(get(coll.clone(), l));
+            if o != format!("variant {l}") { problems.push(format!("{l} got `{o}`")); }
+        }
+        OVERLAP_GATE.store(true, Ordering::SeqCst);
+        match rt.block_on(async { tokio::time::timeout(std::time::Duration::from_secs(5), slow).await }) {
+            Ok(Ok(o)) if o == "variant zz" => {}
+            Ok(Ok(o)) => problems.push(format!("the waiting request got `{o}`")),
+            Ok(Err(e)) => problems.push(format!("the waiting request's task died: {}", if e.is_panic() { "panic" } else { "cancelled" })),
+            Err(_) => problems.push("the waiting request never finished".into()),
+        }
+        for l in ["zz", "aa", "mm", "bb", "zz"] {
+            let o = rt.block_on(get(coll.clone(), l));
+            if o != format!("variant {l}") { problems.push(format!("afterwards {l} got `{o}`")); }
+        }
+        rt.shutdown_background();
+        if problems.is_empty() { "ok".into() } else { problems.join(" | ") }
+    }
+    fn oracle(&self, _ctx: &Ctx, line: &str, out: &str) -> Option<(String, String)> {
+        if out != "ok" {
+            return Some((format!("overlap:{line}"), out.to_owned()));
+        }
+        None
+    }
+    fn nontrivial(&self, _l: &str, _o: &str) -> bool {
+        true
+    }
+}
